@@ -126,6 +126,7 @@ func HarnessC13Files() {
 	lead := c13Token(vChoice("kind", c13Kinds), "t") + string([]byte{symBreak("gap")})
 	line := 1 + countNewlines(lead)
 	cwd := vfsCwd()
+	dir := []string{"templates", "t%20x", "100%d"}[vChoice("dir", 3)]
 	layout := "L[@reserve(\"r\")]"
 	comp := "<c>{{ t }}</c>"
 	page := "@use(\"~main\")@insert(\"r\")P@component(\"~card\", {t: 1})@end"
@@ -140,7 +141,7 @@ func HarnessC13Files() {
 		if vChoice("named-slot", 2) == 1 {
 			page = lead + "@component(\"~box\")@slot(\"n\"){{ 1 / 0 }}@end@end"
 		}
-		wantPath = cwd + "/templates/page.tw"
+		wantPath = cwd + "/" + dir + "/page.tw"
 		runtime = true
 	case 6: // run-time fault inside the component file: the line is that of the component file (path not asserted)
 		comp = lead + "{{ undefinedName }}"
@@ -150,31 +151,31 @@ func HarnessC13Files() {
 		runtime, lineOnly = true, true
 	case 0: // undefined insert in the page
 		page = "@use(\"~main\")" + lead + "@insert(\"zz\", 1)"
-		wantPath = cwd + "/templates/page.tw"
+		wantPath = cwd + "/" + dir + "/page.tw"
 	case 1: // unknown component in the page
 		page = lead + "@component(\"~nope\")"
-		wantPath = cwd + "/templates/page.tw"
+		wantPath = cwd + "/" + dir + "/page.tw"
 	case 2: // syntax fault in the layout file
 		layout = lead + "{{ 1 2 }}[@reserve(\"r\")]"
-		wantPath = cwd + "/templates/layouts/main.tw"
+		wantPath = cwd + "/" + dir + "/layouts/main.tw"
 	case 3: // illegal character in the component file
 		comp = lead + "{{ # }}"
-		wantPath = cwd + "/templates/components/card.tw"
+		wantPath = cwd + "/" + dir + "/components/card.tw"
 	case 4: // run-time fault in the page itself
 		page = lead + "{{ undefinedName }}"
-		wantPath = cwd + "/templates/page.tw"
+		wantPath = cwd + "/" + dir + "/page.tw"
 		runtime = true
 	default: // syntax fault in the page
 		page = lead + "@if(true"
-		wantPath = cwd + "/templates/page.tw"
+		wantPath = cwd + "/" + dir + "/page.tw"
 	}
-	vfsWriteFile("templates/layouts/main.tw", layout)
-	vfsWriteFile("templates/components/card.tw", comp)
+	vfsWriteFile(dir+"/layouts/main.tw", layout)
+	vfsWriteFile(dir+"/components/card.tw", comp)
 	if box {
-		vfsWriteFile("templates/components/box.tw", "\n\n<@slot|@slot(\"n\")>")
+		vfsWriteFile(dir+"/components/box.tw", "\n\n<@slot|@slot(\"n\")>")
 	}
-	vfsWriteFile("templates/page.tw", page)
-	tpl, err := newTemplate("templates", ".tw")
+	vfsWriteFile(dir+"/page.tw", page)
+	tpl, err := newTemplate(dir, ".tw")
 	vCover("loaded")
 	if runtime {
 		vAssert(err == nil && tpl != nil, "tree-with-a-run-time-fault-loads")
